@@ -172,6 +172,12 @@ class KvRun(object):
             if k == 1:
                 # x=y lines whose x is unrelated to, contains, or is a proper substring of the requested key
                 t = ch.pick(['other', 'k2', key + 'x', 'x' + key, '', key[:4], key[-2:], key.split('/')[0], key[1:]], 'dk') + '=' + t
+                if t.split('=', 1)[0] == key:
+                    # the line repeats the requested key itself: indistinguishable from a repeated reply line once joined
+                    if sim.gate('data-line-repeats-requested-key'):
+                        sim.probe('data-line-repeats-requested-key')
+                    else:
+                        t = '_' + t
                 sim.probe('dataline-key=value')
             elif k == 2:
                 t = '.' + ch.pick(['', '.', t, ' x'], 'dot')
@@ -212,11 +218,23 @@ class KvRun(object):
             keys = ['info/k%d_%d' % (q.idx, i) for i in range(nk)]
             if ch.chance(1, 3, 'plainkeys'):
                 keys = [ch.pick(['version', 'config-file', 'traffic/read', 'net/listeners/socks', 'md/id/X'], 'rk') + str(i) for i in range(nk)]
-            vals = [self.draw_value('%s.%d' % (tag, i)) for i in range(nk)]
             q.kind = 'get_info'
             q.wire = 'GETINFO ' + ' '.join(keys)
-            q.reply = Reply(250, [('mid', '%s=%s' % (a, b)) for a, b in zip(keys, vals)], 'OK')
-            q.expect = ('dict', dict(zip(keys, [[v] for v in vals])))
+            parts, want = [], {}
+            for i, key in enumerate(keys):
+                if ch.chance(1, 4, 'mkdata'):
+                    # one of several requested keys answers with a data block (descriptor-like lines included)
+                    lines = self.draw_data_lines(key, '%s.%d' % (tag, i))
+                    parts.append(('data', key + '=', lines))
+                    v = '\n'.join(lines)
+                    want[key] = [v, '\n' + v] if lines else ['', '\n']
+                    sim.probe('getinfo-multi-key-with-data-block')
+                else:
+                    v = self.draw_value('%s.%d' % (tag, i))
+                    parts.append(('mid', '%s=%s' % (key, v)))
+                    want[key] = [v]
+            q.reply = Reply(250, parts, 'OK')
+            q.expect = ('dict', want)
             sim.probe('getinfo-multi-key')
             d = self.proto.get_info(*keys)
         elif k in (1, 2):
@@ -447,6 +465,8 @@ class KvRun(object):
 
     @staticmethod
     def cause13(q, got, want):
+        if isinstance(want, str) and any(l.split('=', 1)[0] == k for l in want.split('\n') if '=' in l for k in q.wire.split()[1:]):
+            return '-data-line-repeats-requested-key'
         if isinstance(want, list) and isinstance(got, list) and len(want) == len(got):
             for g, w in zip(got, want):
                 if g != w:
